@@ -551,7 +551,12 @@ pub enum ClaimSpec {
   Native(String, NativeVal),
   /// harness-defined `PasetoClaim` implementation: any key (also reserved ones), any JSON value
   Any(String, Value),
+  /// `IssuerClaim::default()` ... `IssuedAtClaim::default()` (0 iss, 1 sub, 2 aud, 3 jti, 4 exp, 5 nbf, 6 iat): the form the
+  /// crate's documentation uses to register a validator for a registered claim
+  DefaultOf(u8),
 }
+
+pub const DEFAULT_KEYS: [&str; 7] = ["iss", "sub", "aud", "jti", "exp", "nbf", "iat"];
 
 /// Native Rust values with their expected JSON (computed without serde's Serialize impls for them).
 #[derive(Clone, Debug, Serialize, Deserialize, PartialEq)]
@@ -724,6 +729,7 @@ impl ClaimSpec {
       ClaimSpec::Nbf(_) | ClaimSpec::NbfOwned(_) => "nbf",
       ClaimSpec::Iat(_) | ClaimSpec::IatOwned(_) => "iat",
       ClaimSpec::Custom(k, _) | ClaimSpec::CustomOwned(k, _) | ClaimSpec::CustomKeyOnly(k) | ClaimSpec::Native(k, _) | ClaimSpec::Any(k, _) => k,
+      ClaimSpec::DefaultOf(i) => DEFAULT_KEYS[*i as usize % 7],
     }
   }
   /// the JSON value this claim must contribute under `key()`
@@ -742,6 +748,8 @@ impl ClaimSpec {
       ClaimSpec::Custom(_, v) | ClaimSpec::CustomOwned(_, v) | ClaimSpec::Any(_, v) => v.clone(),
       ClaimSpec::CustomKeyOnly(_) => Value::String(String::new()),
       ClaimSpec::Native(_, n) => n.expected(),
+      // the documented defaults: empty text, or the placeholder instant for the time claims
+      ClaimSpec::DefaultOf(i) => Value::String(if *i % 7 >= 4 { "2019-01-01T00:00:00+00:00".to_string() } else { String::new() }),
     }
   }
 }
@@ -796,6 +804,18 @@ macro_rules! with_claim {
       ClaimSpec::Jti(v) => {
         let $c = TokenIdentifierClaim::from($strfn(v));
         $body;
+        Ok(())
+      }
+      ClaimSpec::DefaultOf(i) => {
+        match *i % 7 {
+          0 => { let $c = IssuerClaim::default(); $body; }
+          1 => { let $c = SubjectClaim::default(); $body; }
+          2 => { let $c = AudienceClaim::default(); $body; }
+          3 => { let $c = TokenIdentifierClaim::default(); $body; }
+          4 => { let $c = ExpirationClaim::default(); $body; }
+          5 => { let $c = NotBeforeClaim::default(); $body; }
+          _ => { let $c = IssuedAtClaim::default(); $body; }
+        }
         Ok(())
       }
       ClaimSpec::Exp(v) => match ExpirationClaim::try_from(v.as_str()) {
